@@ -824,6 +824,26 @@ def _misc(vm, m, c, args):
                 # max returns the second argument when equal, min the first
                 outs.append((m1, 'ret', (args[1] if r.idx <= 0 else args[0]) if meth == 'max' else (args[0] if r.idx <= 0 else args[1])))
             return outs
+    # either::Either
+    mm = re.match(r'^(?:either::)?Either::<.*?>::(\w+)(?:::<.*>)?$', c)
+    if mm and args:
+        n = mm.group(1); v = args[0]; ev = _d(vm, m, v)
+        if isinstance(ev, Enum) and ev.name in ('Left', 'Right'):
+            left = ev.name == 'Left'
+            if n in ('as_ref', 'as_mut') and isinstance(v, Ref):
+                r = v
+                while isinstance(vm.read_at(m, r.cell, r.path), Ref): r = vm.read_at(m, r.cell, r.path)
+                return ret(m, Enum(ev.idx, ev.name, (Ref(r.cell, r.path + (('f', 0),)),), ev.ty))
+            if n == 'either': return vm.call_closure(m, args[1] if left else args[2], [ev.f[0]])
+            if n in ('is_left', 'is_right'): return ret(m, left == (n == 'is_left'))
+            if n in ('left', 'right'): return ret(m, SOME(ev.f[0]) if left == (n == 'left') else NONE())
+            if n in ('map_left', 'map_right'):
+                if left != (n == 'map_left'): return ret(m, ev)
+                return [(m1, k, Enum(ev.idx, ev.name, (r,), ev.ty) if k == 'ret' else r) for (m1, k, r) in vm.call_closure(m, args[1], [ev.f[0]])]
+            if n == 'flip': return ret(m, Enum(1 - ev.idx, 'Right' if left else 'Left', ev.f, ev.ty))
+            if n in ('unwrap_left', 'unwrap_right', 'expect_left', 'expect_right'):
+                if left == ('left' in n): return ret(m, ev.f[0])
+                return panic(m, ('%s on the other side' % n, None, None))
     # a tuple variant used as a function value (`.map(StepSizeAdaptMethod::Fixed)`, `.map(Some)`, `.map_err(MyError::Io)`)
     mm = re.match(r'^(?:\w+::)*([A-Z]\w*)::([A-Z]\w*)$', c)
     if mm and mm.group(1) in vm.enums and mm.group(2) in vm.enums[mm.group(1)] and not vm.mir.enum_discr.get(mm.group(1)):
